@@ -144,6 +144,62 @@ def run_loop(I, node, spec, st, ctx, k):
   return eval_pred(spec.invariant, st, after_init)
 
 
+def _substitute_state(st, var, term):
+  """replace the constant `var` by `term` everywhere in a state (sound when var == term is known)"""
+  pairs = [(var, term)]
+  def sub(v):
+    if is_sym(v):
+      return concretize(z3.substitute(v, *pairs))
+    if isinstance(v, tuple):
+      return tuple(sub(x) for x in v)
+    return v
+  st.pc = [z3.substitute(a, *pairs) if is_sym(a) else a for a in st.pc]
+  st._solver = None
+  st._solver_n = 0
+  st._model = None
+  for fr in st.frames.values():
+    for kx in list(fr.keys()):
+      fr[kx] = sub(fr[kx])
+  for kx in list(st.ghost.keys()):
+    st.ghost[kx] = sub(st.ghost[kx])
+  st.decomp = {}
+  st.norange = set()
+
+
+def _bind_equalities(st, fr, names, formula):
+  """after assuming the invariant: a conjunct `x == t` for a havocked local x makes x an alias of t"""
+  if not is_sym(formula):
+    return
+  conj = list(formula.children()) if z3.is_and(formula) else [formula]
+  for c in conj:
+    if z3.is_eq(c) and c.num_args() == 2:
+      a, b_ = c.arg(0), c.arg(1)
+      for x, t in ((a, b_), (b_, a)):
+        for nm in names:
+          v = fr.get(nm)
+          if is_sym(v) and z3.is_const(v) and v.eq(x) and not z3.is_const(t):
+            # t must not mention x itself
+            if x.get_id() in set(y.get_id() for y in _consts(t)):
+              continue
+            _substitute_state(st, x, t)
+            break
+
+
+def _consts(t):
+  out = []
+  seen = set()
+  stack = [t]
+  while stack:
+    e = stack.pop()
+    if e.get_id() in seen:
+      continue
+    seen.add(e.get_id())
+    if z3.is_const(e) and e.decl().kind() == z3.Z3_OP_UNINTERPRETED:
+      out.append(e)
+    stack.extend(e.children())
+  return out
+
+
 def run_for(I, node, spec, st, ctx, k):
   """`for x in seq` over a list of symbolic length, cut at an invariant over the ghost index v._i:
        _i = 0; while _i < len(seq): x = seq[_i]; body; _i += 1"""
@@ -152,13 +208,19 @@ def run_for(I, node, spec, st, ctx, k):
   lname = spec.name or ("loop@" + where)
 
   def with_iter(st0, seq):
-    from .values import SEnum
+    from .values import SEnum, SymRange
     enum = isinstance(seq, SEnum)
+    rng = isinstance(seq, SymRange)
     if enum:
       seq = seq.ref
-    if not (isinstance(seq, Ref) and st0.obj(seq).kind == "slist"):
+    if rng:
+      n = zint(seq.stop)
+      if st0.feasible(n < 0):
+        n = z3.If(n < 0, 0, n)
+    elif not (isinstance(seq, Ref) and st0.obj(seq).kind == "slist"):
       raise Unsupported("for-loop invariant given for a loop over a concrete sequence at %s" % where)
-    n = zint(st0.obj(seq).data["len"])
+    else:
+      n = zint(st0.obj(seq).data["len"])
     view = FrameView(ctx.fid, {"_i": 0, "_seq": seq})
 
     def eval_pred(fn, st_, i, kk):
@@ -188,6 +250,13 @@ def run_for(I, node, spec, st, ctx, k):
             if not st2b.feasible(True):
               return
             def body(st3):
+              if getattr(spec, "axioms", None) is not None:
+                ax = []
+                eval_pred(spec.axioms, st3, i, lambda s_, v_: ax.append((s_, v_)))
+                if len(ax) != 1:
+                  raise Unsupported("loop axioms must evaluate on a single path")
+                st3 = ax[0][0]
+                st3.add(ax[0][1] if is_sym(ax[0][1]) else z3.BoolVal(bool(ax[0][1])))
               def end_iter(st7):
                 def chk(st8, inv2):
                   def with_t3(st8b, t3):
@@ -195,10 +264,13 @@ def run_for(I, node, spec, st, ctx, k):
                   return I.truth(inv2, st8, ctx, with_t3, node)
                 return eval_pred(spec.invariant, st7, concretize(i + 1), chk)
               c2 = ctx.replace(brk_k=k, cont_k=end_iter)
-              return I.assign(node.target, (i, SElem(seq, i)) if enum else SElem(seq, i), st3, ctx,
+              return I.assign(node.target, i if rng else ((i, SElem(seq, i)) if enum else SElem(seq, i)), st3, ctx,
                               lambda st4: I.ex(node.body, 0, st4, c2, end_iter))
             def done(st3):
+              # at exit the ghost index equals the length (0 <= i <= n and not i < n)
+              _substitute_state(st3, i, n if is_sym(n) else z3.IntVal(n))
               return I.ex(node.orelse, 0, st3, ctx, k)
+            _bind_equalities(st2b, st2b.frames[ctx.fid], list(hv.keys()), t2)
             return I.branch(i < n, st2b, body, done, "for-test")
           return I.truth(inv1, st2, ctx, with_t2, node)
         return eval_pred(spec.invariant, st1b, i, assumed)
